@@ -168,7 +168,7 @@ def _dead_top_imports(text):
 class C04(Prop):
     id = "C04"
     driver = "Blocks"
-    lean_modules = ["Pfb.C04.Props", "Pfb.C04.NoUnusedLeft", "Pfb.C04.KeepsMissing", "Pfb.C04.NoUnusedLeftC"]
+    lean_modules = ["Pfb.C04.Props", "Pfb.C04.NoUnusedLeft", "Pfb.C04.KeepsMissing", "Pfb.C04.NoUnusedLeftC", "Pfb.C04.AddStage"]
     theorems = [
         "Pfb.C04.C04_never_guesses",
         "Pfb.C04.C04_unique_added",
@@ -196,6 +196,17 @@ class C04(Prop):
         "Pfb.C04.C04_no_unused_left_fragC_noDeferredNames",
         "Pfb.C04.witness_deferred_names_fragC",
         "Pfb.C04.witness_unlocated_after_def",
+        # the ADD half at run level: an import bound before the first read resolves the name in the reference run, and adds no new missing name
+        "Pfb.C04.C04_add_resolves_fragB",
+        "Pfb.C04.C04_add_resolves_by_line_fragB",
+        "Pfb.C04.C04_add_stage_safe_fragB",
+        "Pfb.C04.C04_add_stage_safe_by_line_fragB",
+        "Pfb.C04.C04_add_keeps_others",
+        "Pfb.C04.C04_add_keeps_other_heads",
+        "Pfb.C04.C04_add_stage_no_new_fragB",
+        "Pfb.C04.C04_add_import_binds",
+        "Pfb.C04.witness_import_after_first_read",
+        "Pfb.C04.witness_registry_none_entry",
     ]
     anchors = [
         ("lib/python/pyflyby/_imports2s.py", "fix_unused_and_missing_imports"),
